@@ -13,7 +13,10 @@ def to_simple(t):
     if isinstance(t, dict):
         if "op" in t and set(t) <= {"op", "args", "kwargs"} and isinstance(t["op"], str):
             kw = {k: to_simple(v) for k, v in t.get("kwargs", {}).items()}
-            args = [to_simple(a) for a in t.get("args", [])] if "args" in t else None
+            raw_args = t.get("args", [])
+            if not isinstance(raw_args, list):
+                raw_args = [raw_args]         # a damaged normal form (reported by normal_shape_ok): do not crash on it
+            args = [to_simple(a) for a in raw_args] if "args" in t else None
             out = dict(kw)
             if args is None:
                 out[t["op"]] = {}
